@@ -332,6 +332,13 @@ def run(rep, tier):
     rep.floor("hash import sites", hash_length_rule(rep, us["ecdsa:default"]), 6)
     reduce_rule(rep, us["ecdsa:default"])
     rep.floor("signed-to-digit conversions", sum(sign_rule(rep, u_) for u_ in us.values()) // len(us), 4)
+    # the signer's k*G and the private-key verifier run the fixed-base comb: it reads scalar bits only below the table's
+    # capacity (C02's rule, with the curve table it needs)
+    from props import c02
+    del c02.CURVES[:]
+    c02.curve_table(rep, us["ecdsa:default"])
+    ncap = sum(c02.comb_capacity(rep, u_, list(c02.CURVES)) for u_ in us.values())
+    rep.floor("comb multipliers", ncap, 1)
     from props import c09
     c09.byte_api(rep, us, "C03")
     return driver.finish(
